@@ -492,6 +492,9 @@ def hyp_cases(draw, tier):
 RULE_ROUND8 = " Templates with a number format spec on {idx} ('F-{idx:03}', '[{idx:>4}]', '{idx:02d}.{hier_idx:>8}'); one case in eight gives the last type 32..70 siblings per parent. Parts tz-west-of-utc / tz-east-of-utc: the whole part once more in child interpreters with TZ=America/Los_Angeles and TZ=Pacific/Kiritimati."
 RULE = RULE + RULE_ROUND8
 
+RULE_ROUND9 = " The callback numbers its calls and marks every second node only (no node shows the effect of another node's call); '*' is the first or the last key of `types`; sample sequences are lists or tuples."
+RULE = RULE + RULE_ROUND9
+
 PARTS = [
     Part("structure-defs", run, strategy=lambda tier: hyp_cases(tier), n={"quick": 1500, "thorough": 150000}),
     nested_part("C20", ["structure-defs"], {"TZ": "America/Los_Angeles"}, "tz-west-of-utc", "local time is behind UTC"),
